@@ -95,14 +95,14 @@ def op_trace(req):
     """one statement through the object's own lexer+parser; logs tokens and reductions"""
     p = DDLParser("", **req.get("ctor", {}))
     events = []
-    for prod in p.yacc.productions:
+    for num, prod in enumerate(p.yacc.productions):
         if prod.callable is not None:
-            def mk(prod, f):
+            def mk(num, f):
                 def g(pp):
-                    events.append(["r", prod.number])
+                    events.append(["r", num])
                     return f(pp)
                 return g
-            prod.callable = mk(prod, prod.callable)
+            prod.callable = mk(num, prod.callable)
     real_token = p.lexer.token
 
     def token():
